@@ -437,7 +437,7 @@ for _p in ('C16', 'C08'):
     PROPS[_p]['contracts'] = PROPS[_p]['contracts'] + SCHEMALESS
 BITS_CONSTRUCTED = [(D, 'ber.decoder::BitStringPayloadDecoder.valueDecoder[constructed]'),
                     (D, 'ber.decoder::BitStringPayloadDecoder.indefLenValueDecoder[complete]')]
-for _p in ('C09', 'C01', 'C08'):
+for _p in ('C09', 'C01', 'C08', 'C02'):
     PROPS[_p]['contracts'] = PROPS[_p]['contracts'] + BITS_CONSTRUCTED
 UB = 'contracts.univ_bits'
 FROM_OCTETS = [(UB, 'type.univ::BitString.fromOctetString[internal]')]
